@@ -44,7 +44,7 @@ package dkg
 
 //@ func (*DKG).processDealCommits
 //@   safety C18,C11
-//@   requires d != nil && verifier != nil && deal != nil && wfStore(d.pubKeys) && d.commits != nil
+//@   requires d != nil && deal != nil && wfStore(d.pubKeys) && d.commits != nil
 //@   pure
 //@   modifies $dec, $commitChecks, $commitOK
 //@   epilogue $commitChecks = old($commitChecks) + 1
@@ -93,7 +93,8 @@ package dkg
 //@ ghost var $commitOK int
 //@ func (*DKG).ProcessDeals behavior checks
 //@   nosafety
-//@   requires d != nil
+//@   requires d != nil && wfStore(d.pubKeys) && d.commits != nil && d.deals != nil && (forall k string :: k in d.deals ==> d.deals[k] != nil)
+//@   loop 0 invariant wfStore(d.pubKeys) && d.commits != nil && (forall k string :: k in d.deals ==> d.deals[k] != nil)
 //@   prologue $commitChecks = 0
 //@   prologue $commitOK = 0
 //@   modifies *
